@@ -217,13 +217,16 @@ PROPS = {
         fmt.C19 + version.API,
         explanation="The two summary-side visibility tests; sibling agreement between Frame._format and as_stdlib_summary_with_contexts on when the frame's own entry is omitted (truth table, addressed as contexts[-1]); "
                     "no argument of any FrameSummary construction is a frame or object graph (locals is None or a dict of repr strings) and the entries carry (filename, lineno, funcname) / the with-line; "
-                    "format_flat = header, StackSummary.format() iff frames, leaf, error; every option is forwarded to the same-named parameter through the five summary methods, and a context yields own entry, inner stack, children in that order.",
-        decides=["FMT-2", "FMT-4", "FMT-6", "FMT-8", "FMT-9"],
+                    "format_flat = header, StackSummary.format() iff frames, leaf, error; every option is forwarded to the same-named parameter through the summary entry points; "
+                    "emission tables (FMT-13): for every truth assignment of the conditions the summary generators test, with helper methods inlined, Stack._frame_summaries yields per frame in order nothing (hidden), "
+                    "the with-contexts series, or exactly the frame's own entry; a frame's series is each context's series then its own entry unless the last context is exiting; a context yields own entry, inner stack (contexts shown), children in that order; "
+                    "stdlib API and introspection attributes used exist on every supported interpreter (VER-4, VER-5).",
+        decides=["FMT-2", "FMT-4", "FMT-6", "FMT-8", "FMT-9", "FMT-12", "FMT-13", "VER-4", "VER-5"],
         not_decided=["pickle round trip", "equality with traceback's rendering"],
         assumptions=BASE_ASSUME,
         level_text="Thin static check: sibling agreement and argument provenance.",
         level_note="Thin.",
-        technique="static analysis: sibling agreement, argument provenance of FrameSummary constructions, option-forwarding agreement over resolved callees",
+        technique="static analysis: abstract interpretation of the summary generators into emission tables over truth assignments (helpers inlined), sibling agreement, argument provenance of FrameSummary constructions, option-forwarding agreement over resolved callees",
         design_ref="DESIGN.md section 4, C19",
     ),
     "C20": S(
